@@ -180,6 +180,17 @@ Theorem C05_model_is_program_denotation : forall users self name arg d appe w,
 Proof. exact gen_body_is_denotation. Qed.
 Print Assumptions C05_model_is_program_denotation.
 
+(* ... and lifted through the decorator stacks: the WHOLE handler (the generic decorator interpreter around
+   the program denotations, delegation CDUP->CWD / APPE->STOR included) computed from today's translated
+   programs is the model's [handler] -- the function [step] calls -- for EVERY world: the handlers' own
+   ConnectionConditions establish what rnto / pass_ read, so only PWD's quote hypothesis remains *)
+Theorem C05_handler_is_program_denotation : forall users fuel name arg d appe w,
+  (name = "pwd"%string -> no_dquote (s_cwd (w_s w)) = true) ->
+  handler_prog users ref_table Gen.Handlers.programs fuel name arg d appe w
+  = handler users ref_table fuel name arg d appe w.
+Proof. exact gen_handler_is_program_denotation. Qed.
+Print Assumptions C05_handler_is_program_denotation.
+
 (* [body_pre] is satisfiable and is no restriction for the other 22 handlers *)
 Theorem C05_body_pre_trivial : forall name w,
   name <> "rnto"%string -> name <> "pass_"%string -> name <> "pwd"%string -> body_pre name w.
